@@ -544,7 +544,7 @@ def main(tier, seed):
         for n in ((1, 3, 5) if q else (1, 2, 3, 5, 8, 12)):
             if k in (0, 6, 7) and n > 5: continue
             jobs.append((f'shape k={k} n={n}', 'shape', dict(k=k, n=n), 3000))
-    for n in ((1, 2, 4) if q else (1, 2, 3, 4, 5, 6)): jobs.append((f'reductions n={n}', 'reduce', dict(n=n), 3000))
+    for n in ((1, 2, 3, 4, 5, 7) if q else (1, 2, 3, 4, 5, 6, 7)): jobs.append((f'reductions n={n}', 'reduce', dict(n=n), 3000))
     for n in ((1, 2, 5) if q else (1, 2, 3, 4, 5, 8, 16, 33)): jobs.append((f'cumsum n={n}', 'cumsum', dict(n=n), 600))
     for kind in range(13): jobs.append((f'power special points kind={kind}', 'power_points', dict(kinds=[kind]), 900))
     jobs.append(('power symbolic', 'power_sym', {}, 600)); jobs.append(('round', 'round', {}, 600))
